@@ -331,14 +331,14 @@ Section Config.
     - inversion H; subst. auto.
     - destruct ch as [sp lo req perr|].
       + destruct (get_feature (sp, lo) (c_feats c)) as [f|] eqn:Eg.
-        * assert (clearinv P1 (emit (EParse f) m)) as Hi1.
-          { destruct Hi as (Ha & Ht & Hb). split; [|auto]. rewrite aut_emit, Ha. reflexivity. }
+        * assert (clearinv P1 (emit (EParse f) (add_adv sp m))) as Hi1.
+          { destruct Hi as (Ha & Ht & Hb). split; [|auto]. rewrite aut_emit. cbn [m_tr add_adv set_adv]. rewrite Ha. reflexivity. }
           destruct perr.
           -- inversion H; subst. auto.
           -- eapply IH; [exact Hi1| | |exact H].
              ++ apply cache_step_clear; [eapply get_feature_in; exact Eg|exact Hca].
              ++ intros _. discriminate.
-        * eapply IH; [exact Hi|exact Hca| |exact H]. intros _. discriminate.
+        * eapply IH; [exact (Hi : clearinv P1 (add_adv sp m))|exact Hca| |exact H]. intros _. discriminate.
       + inversion H; subst. auto.
   Qed.
 
@@ -443,7 +443,7 @@ Section Config.
     induction cs as [|ch cs IH]; intros m ca tot lr m' r H; cbn in H.
     - inversion H; subst. reflexivity.
     - destruct ch as [sp lo req perr|]; [|inversion H; subst; reflexivity].
-      destruct (get_feature (sp, lo) fs) as [f|]; [|eapply IH; exact H].
+      destruct (get_feature (sp, lo) fs) as [f|]; [|rewrite (IH _ _ _ _ _ _ H); reflexivity].
       destruct perr; [inversion H; subst; reflexivity|].
       rewrite (IH _ _ _ _ _ _ H). reflexivity.
   Qed.
@@ -630,8 +630,9 @@ Section Config.
     induction cs as [|ch cs IH]; intros m ca tot lr m' r Hi Hca H; cbn in H.
     - inversion H; subst. auto.
     - destruct ch as [sp lo req perr|]; [|inversion H; subst; auto].
+      assert (ti (add_adv sp m)) as Hi0 by exact Hi.
       destruct (get_feature (sp, lo) (c_feats c)) as [f|] eqn:Eg; [|eapply IH; eauto].
-      assert (ti (emit (EParse f) m)) as Hi1 by (apply ti_emit; [reflexivity|exact Hi]).
+      assert (ti (emit (EParse f) (add_adv sp m))) as Hi1 by (apply ti_emit; [reflexivity|exact Hi0]).
       destruct perr; [inversion H; subst; auto|].
       eapply IH; [exact Hi1| |exact H].
       unfold cache_step. destruct (eligible f st); [|exact Hca].
@@ -785,10 +786,10 @@ Section Config.
   Proof. intros (Ha & Ht & Hh & Hs) Hcl. exists P4. cbn. repeat split; auto. Qed.
 
   Lemma ti_next m (mask : N) (restart : bool) :
-    ti m -> ti (set_bits (N.lor (m_bits (if restart then set_negd [] m else m)) mask)
-                         (if restart then set_negd [] m else m)).
+    ti m -> ti (set_bits (N.lor (m_bits (if restart then reset_stream m else m)) mask)
+                         (if restart then reset_stream m else m)).
   Proof.
-    intros (Ha & Ht & Hh & Hs). destruct restart; unfold ti; cbn [m_tr m_tls m_hs m_bits set_bits set_negd];
+    intros (Ha & Ht & Hh & Hs). destruct restart; unfold ti; cbn [m_tr m_tls m_hs m_bits set_bits set_negd set_adv reset_stream];
       repeat split; auto; apply has_lor; exact Hs.
   Qed.
 
@@ -820,9 +821,9 @@ Section Config.
         * destruct Hpost as (Hm & Hr & Hn1 & (Hp3 & Hb3)). subst mask restart ns1.
           apply IH.
           -- right; left. split; [|reflexivity]. split; [exact Hp3|].
-             cbn [m_bits set_bits set_negd]. rewrite Hb3, lor_twice.
+             cbn [m_bits set_bits set_negd set_adv reset_stream]. rewrite Hb3, lor_twice.
              split; [apply has_lor_r|apply b0s_ready; exact Hb0].
-          -- intros (Ha4 & _). destruct Hp3 as (Ha3 & _). cbn [m_tr set_bits set_negd] in Ha4. congruence.
+          -- intros (Ha4 & _). destruct Hp3 as (Ha3 & _). cbn [m_tr set_bits set_negd set_adv reset_stream] in Ha4. congruence.
         * destruct Hpost as (p & Hp12 & (Ha & Ht & Hb)). exists p. cbn.
           repeat split; auto; try discriminate. destruct Hp12; subst p; cbn; auto.
         * destruct Hpost as (p & Hp12 & (Ha & Ht & Hb)). exists p. cbn.
